@@ -212,6 +212,40 @@ mut("view-find-first-only", "rough_tlv/src/decoder.rs",
     "            this.tags().binary_search(&wanted).ok().map(|i| i.saturating_sub((i > 2) as usize))",
     ["C12", "C11"])
 
+# ---- vouched_time window ---------------------------------------------------
+mut("vt-swap-constants", "vouched_time/src/lib.rs",
+    "        if (-(MAX_BACKWARD_DISCREPANCY_MS as i128)..=(MAX_FORWARD_DISCREPANCY_MS as i128))",
+    "        if (-(MAX_FORWARD_DISCREPANCY_MS as i128)..=(MAX_BACKWARD_DISCREPANCY_MS as i128))",
+    ["C14"])
+mut("vt-upper-exclusive", "vouched_time/src/lib.rs",
+    "        if (-(MAX_BACKWARD_DISCREPANCY_MS as i128)..=(MAX_FORWARD_DISCREPANCY_MS as i128))",
+    "        if (-(MAX_BACKWARD_DISCREPANCY_MS as i128)..(MAX_FORWARD_DISCREPANCY_MS as i128))",
+    ["C14"])
+mut("vt-lower-off-by-one", "vouched_time/src/lib.rs",
+    "        if (-(MAX_BACKWARD_DISCREPANCY_MS as i128)..=(MAX_FORWARD_DISCREPANCY_MS as i128))",
+    "        if (-(MAX_BACKWARD_DISCREPANCY_MS as i128) - 1..=(MAX_FORWARD_DISCREPANCY_MS as i128))",
+    ["C14"])
+mut("vt-no-epoch-test", "vouched_time/src/lib.rs",
+    "        if local_time_ms < 0 {\n            return Err(other(\"local_time is before the Unix epoch\"));\n        }",
+    "        if local_time_ms < -59_000 {\n            return Err(other(\"local_time is before the Unix epoch\"));\n        }\n        let local_time_ms = local_time_ms.max(0);",
+    ["C14"])
+mut("vt-trunc-division", "vouched_time/src/lib.rs",
+    "                .div_euclid(1_000_000),",
+    "                / 1_000_000,",
+    ["C14"])
+mut("vt-wrapping-window", "vouched_time/src/lib.rs",
+    "        let discrepancy_ms = (local_time_ms as i128) - (base_time_ms as i128);",
+    "        let discrepancy_ms = (local_time_ms.wrapping_sub(base_time_ms) as i64) as i128;",
+    ["C14"])
+mut("vt-now-uses-stale-time", "vouched_time/src/lib.rs",
+    "        let (base_time_ms, voucher) = base_time_provider(now)?;\n        VouchedTime::new(\n            time::PrimitiveDateTime::new(now.date(), now.time()),",
+    "        let (base_time_ms, voucher) = base_time_provider(now)?;\n        let now = now + time::Duration::milliseconds(4);\n        VouchedTime::new(\n            time::PrimitiveDateTime::new(now.date(), now.time()),",
+    ["C14"])
+mut("vt-check-skips-voucher", "vouched_time/src/lib.rs",
+    "        if !BASE_TIME_CHECK.check(base_time_ms, voucher) {",
+    "        if !BASE_TIME_CHECK.check(base_time_ms, voucher) && base_time_ms % 7 != 3 {",
+    ["C14"])
+
 # ---- streaming / iovec behaviour seen through the codecs -------------------
 mut("iovec-stable-prefix-last-backref", "owning_iovec/src/implementation.rs",
     "            .backrefs\n            .first()\n            .map(|backref| backref.1.unwrap().slice_index);",
